@@ -26,6 +26,7 @@ import (
 	"testing"
 	"time"
 
+	"git.torproject.org/pluggable-transports/snowflake.git/v2/common/bridgefingerprint"
 	"git.torproject.org/pluggable-transports/snowflake.git/v2/common/messages"
 	vh "git.torproject.org/pluggable-transports/snowflake.git/v2/common/zzverif"
 	"github.com/prometheus/client_golang/prometheus"
@@ -35,6 +36,24 @@ import (
 const (
 	bcDefaultFP = "2B280B23E1107BB62ABFC40DDCC8824814F80A72"
 )
+
+// bcSid maps a poll id to its session id string. Distinct ids give distinct strings, but several of
+// them differ only in surrounding whitespace, letter case or a trailing NUL - the property quantifies
+// over *pairwise distinct* ids, however similar.
+func bcSid(p int) string {
+	base := fmt.Sprintf("sid-%d", p/5)
+	switch p % 5 {
+	case 1:
+		return base + " "
+	case 2:
+		return " " + base
+	case 3:
+		return strings.ToUpper(base)
+	case 4:
+		return base + "\t"
+	}
+	return base
+}
 
 func bcFP(k int) string {
 	if k == 0 {
@@ -72,6 +91,7 @@ type bcReq struct {
 }
 
 type bcInst struct {
+	lockDead bool // the package's snowflakeLock could not be acquired within the deadline
 	t       *testing.T
 	ctx     *BrokerContext
 	ipc     *IPC
@@ -120,6 +140,7 @@ func (b *bcInst) bridgeSpec() string {
 func (b *bcInst) start(r *bcReq) {
 	r.done = make(chan struct{})
 	r.started = time.Now()
+	vh.Journal(fmt.Sprintf("broker-instance %p: %c id=%d nat=%q clients=%d fp=%d omitFP=%v sid-of-answer=%d sid=%q", b, r.kind, r.id, r.wireNat, r.clients, r.fp, r.omitFP, r.sid, bcSid(r.id)))
 	b.mu.Lock()
 	b.reqs = append(b.reqs, r)
 	b.byKey[fmt.Sprintf("%c%d", r.kind, r.id)] = r
@@ -135,7 +156,7 @@ func (b *bcInst) start(r *bcReq) {
 		var resp []byte
 		switch r.kind {
 		case 'P':
-			body, _ := messages.EncodeProxyPollRequestWithRelayPrefix(fmt.Sprintf("sid-%d", r.id), "standalone", r.wireNat, r.clients, "")
+			body, _ := messages.EncodeProxyPollRequestWithRelayPrefix(bcSid(r.id), "standalone", r.wireNat, r.clients, "")
 			err := b.ipc.ProxyPolls(messages.Arg{Body: body, RemoteAddr: "1.2.3.4:5"}, &resp)
 			if err != nil {
 				r.outcome = "err:" + err.Error()
@@ -184,7 +205,7 @@ func (b *bcInst) start(r *bcReq) {
 				r.outcome = fmt.Sprintf("answer:%d", r.answerOf)
 			}
 		case 'A':
-			body, _ := messages.EncodeAnswerRequest(fmt.Sprintf("answer-%d", r.id), fmt.Sprintf("sid-%d", r.sid))
+			body, _ := messages.EncodeAnswerRequest(fmt.Sprintf("answer-%d", r.id), bcSid(r.sid))
 			err := b.ipc.ProxyAnswers(messages.Arg{Body: body, RemoteAddr: "1.2.3.4:5"}, &resp)
 			if err != nil {
 				r.outcome = "err:" + err.Error()
@@ -225,15 +246,41 @@ func bcWait(cond func() bool, d time.Duration) bool {
 	}
 }
 
+// lock takes the broker's snowflakeLock with a deadline, so that a broker that never releases it
+// makes the harness report instead of hang.
+func (b *bcInst) lock() bool {
+	b.mu.Lock()
+	dead := b.lockDead
+	b.mu.Unlock()
+	if dead {
+		return false
+	}
+	ch := make(chan struct{})
+	go func() { b.ctx.snowflakeLock.Lock(); close(ch) }()
+	select {
+	case <-ch:
+		return true
+	case <-time.After(8 * time.Second):
+		b.mu.Lock()
+		b.lockDead = true
+		b.mu.Unlock()
+		return false
+	}
+}
+
 func (b *bcInst) registered(p int) bool {
-	b.ctx.snowflakeLock.Lock()
+	if !b.lock() {
+		return false
+	}
 	defer b.ctx.snowflakeLock.Unlock()
-	_, ok := b.ctx.idToSnowflake[fmt.Sprintf("sid-%d", p)]
+	_, ok := b.ctx.idToSnowflake[bcSid(p)]
 	return ok
 }
 
 func (b *bcInst) counts() (hu, hr, mp int, gauge float64) {
-	b.ctx.snowflakeLock.Lock()
+	if !b.lock() {
+		return -1, -1, -1, -1
+	}
 	hu, hr, mp = b.ctx.snowflakes.Len(), b.ctx.restrictedSnowflakes.Len(), len(b.ctx.idToSnowflake)
 	b.ctx.snowflakeLock.Unlock()
 	ch := make(chan prometheus.Metric, 64)
@@ -305,15 +352,19 @@ func (q *bcQuiet) fail(key, detail string) {
 }
 
 func (q *bcQuiet) doPoll(rng *rand.Rand) {
+	q.doPollWith(bcNats[rng.Intn(len(bcNats))], []int{0, 0, 1, 2, 3, 8, 8, 16}[rng.Intn(8)])
+}
+
+func (q *bcQuiet) doPollWith(w string, clients int) *bcReq {
 	q.nextP++
-	w := bcNats[rng.Intn(len(bcNats))]
-	r := &bcReq{kind: 'P', id: q.nextP, wireNat: w, nat: bcDecodedNat(w), clients: []int{0, 0, 1, 2, 3, 8, 8, 16}[rng.Intn(8)]}
+	r := &bcReq{kind: 'P', id: q.nextP, wireNat: w, nat: bcDecodedNat(w), clients: clients}
 	q.inst.start(r)
 	if !bcWait(func() bool { return q.inst.registered(r.id) || r.isDone() }, 5*time.Second) {
 		q.fail("poll-not-registered", fmt.Sprintf("poll %d not registered within 5 s", r.id))
 	}
 	q.waiting[r.id] = r
 	q.events = append(q.events, fmt.Sprintf("P:%d:%s:%d", r.id, bcNatLetter(r.nat), r.clients))
+	return r
 }
 
 func (q *bcQuiet) eligible(cnat string) []*bcReq {
@@ -327,17 +378,20 @@ func (q *bcQuiet) eligible(cnat string) []*bcReq {
 }
 
 func (q *bcQuiet) doClient(rng *rand.Rand, nFP int) {
-	q.nextC++
 	w := bcNats[rng.Intn(len(bcNats))]
-	r := &bcReq{kind: 'C', id: 100 + q.nextC, wireNat: w, nat: bcDecodedNat(w)}
 	switch rng.Intn(6) {
 	case 0:
-		r.omitFP = true
+		q.doClientWith(w, 0, true)
 	case 1:
-		r.fp = nFP + 1 + rng.Intn(3) // not in the bridge list
+		q.doClientWith(w, nFP+1+rng.Intn(3), false) // not in the bridge list
 	default:
-		r.fp = rng.Intn(nFP + 1)
+		q.doClientWith(w, rng.Intn(nFP+1), false)
 	}
+}
+
+func (q *bcQuiet) doClientWith(w string, fp int, omitFP bool) {
+	q.nextC++
+	r := &bcReq{kind: 'C', id: 100 + q.nextC, wireNat: w, nat: bcDecodedNat(w), fp: fp, omitFP: omitFP}
 	elig := q.eligible(r.nat)
 	_, known := q.inst.bridges[r.fp]
 	q.inst.start(r)
@@ -482,13 +536,21 @@ func (q *bcQuiet) doAnswer(rng *rand.Rand) {
 }
 
 // timers: everything that is waiting times out; called once the harness has slept past the timeouts
-func (q *bcQuiet) doTimeouts() {
+func (q *bcQuiet) doTimeouts() { q.doTimeoutsFor(nil, true) }
+
+// doTimeoutsFor: the polls listed in `only` (all waiting ones when nil) and, if `clients`, every
+// matched client have reached their timeouts.
+func (q *bcQuiet) doTimeoutsFor(only map[int]bool, clients bool) {
 	var ps, cs []int
 	for p := range q.waiting {
-		ps = append(ps, p)
+		if only == nil || only[p] {
+			ps = append(ps, p)
+		}
 	}
 	for c := range q.matched {
-		cs = append(cs, c)
+		if clients {
+			cs = append(cs, c)
+		}
 	}
 	sort.Ints(ps)
 	sort.Ints(cs)
@@ -536,6 +598,82 @@ func bcTimeout() time.Duration {
 	return d
 }
 
+// finish evaluates the quiescence oracles and renders the model line.
+func (q *bcQuiet) finish(bridges map[int]int) (line, real string, fails []vh.Finding, nEvents int) {
+	inst := q.inst
+	pending := inst.anyPending()
+	real = inst.summary(pending)
+	hu, hr, mp, g := inst.counts()
+	if !pending && !inst.lockDead && (hu != 0 || hr != 0 || mp != 0 || int(g) != 0) {
+		q.fail("leftover-registration-at-quiescence", fmt.Sprintf("heapU=%d heapR=%d map=%d gauge=%v", hu, hr, mp, g))
+	}
+	if pending {
+		q.fail("request-pending-at-end", real)
+	}
+	if inst.lockDead {
+		q.fail("broker-lock-held-forever", "the broker's matching lock was not released for 8 s: every later request hangs")
+	}
+	fresh := &bcReq{kind: 'C', id: 999, wireNat: "unknown"}
+	if _, ok := bridges[0]; ok && !inst.lockDead {
+		inst.start(fresh)
+		if !bcWait(fresh.isDone, 5*time.Second) || fresh.outcome != "denied" {
+			q.fail("fresh-client-not-denied-at-quiescence", fmt.Sprintf("outcome %q", fresh.outcome))
+		}
+	}
+	evs := "."
+	if len(q.events) > 0 {
+		evs = strings.Join(q.events, ",")
+	}
+	line = fmt.Sprintf("broker quiet 1 %s %s", inst.bridgeSpec(), evs)
+	for i := range q.fails {
+		q.fails[i].Case = line
+		q.fails[i].Real = real
+	}
+	return line, real, q.fails, len(q.events)
+}
+
+// runStaggered: polls of one pool arrive in two groups 2.5 s apart, so that the first group times out
+// (heap.Remove from inside the heap) while the second still waits; clients then drain the pool one
+// by one and each match must be clients-minimal among what is waiting at that instant.
+func runStaggered(t *testing.T, seed int64) (line, real string, fails []vh.Finding, nEvents int) {
+	rng := rand.New(rand.NewSource(seed))
+	bridges := map[int]int{0: 100}
+	inst := newBcInst(t, bridges)
+	q := &bcQuiet{inst: inst, waiting: map[int]*bcReq{}, matched: map[int]*bcReq{}, early: map[int]int{}}
+	unrestrictedPool := rng.Intn(2) == 0
+	proxyNat := func() string {
+		if unrestrictedPool {
+			return "unrestricted"
+		}
+		return []string{"restricted", "unknown", ""}[rng.Intn(3)]
+	}
+	clientNat := func() string {
+		if unrestrictedPool {
+			return []string{"restricted", "unknown", ""}[rng.Intn(3)]
+		}
+		return "unrestricted"
+	}
+	counts := func() int { return []int{0, 1, 2, 3, 5, 8, 10, 11, 12, 13, 16, 30, 40}[rng.Intn(13)] }
+	groupA := map[int]bool{}
+	tA := time.Now()
+	for i, n := 0, 1+rng.Intn(3); i < n; i++ {
+		groupA[q.doPollWith(proxyNat(), counts()).id] = true
+	}
+	time.Sleep(2500 * time.Millisecond)
+	nB := 5 + rng.Intn(6)
+	for i := 0; i < nB; i++ {
+		q.doPollWith(proxyNat(), counts())
+	}
+	time.Sleep(time.Until(tA.Add(time.Duration(ProxyTimeout)*time.Second + 400*time.Millisecond)))
+	q.doTimeoutsFor(groupA, false)
+	for i := 0; i < nB+1; i++ {
+		q.doClientWith(clientNat(), 0, rng.Intn(3) == 0)
+	}
+	time.Sleep(bcTimeout() + 400*time.Millisecond)
+	q.doTimeouts()
+	return q.finish(bridges)
+}
+
 // runQuiet executes one generated quiet history on a fresh broker. Returns the model line, the real
 // summary and oracle failures.
 func runQuiet(t *testing.T, seed int64, t0 time.Time) (line, real string, fails []vh.Finding, nEvents int) {
@@ -557,33 +695,7 @@ func runQuiet(t *testing.T, seed int64, t0 time.Time) (line, real string, fails 
 	q.phase(rng, 2+rng.Intn(8), nFP)
 	time.Sleep(bcTimeout() + 400*time.Millisecond)
 	q.doTimeouts()
-	// C04: quiescence is clean and a fresh client is told there are no proxies
-	pending := inst.anyPending()
-	real = inst.summary(pending)
-	hu, hr, mp, g := inst.counts()
-	if !pending && (hu != 0 || hr != 0 || mp != 0 || int(g) != 0) {
-		q.fail("leftover-registration-at-quiescence", fmt.Sprintf("heapU=%d heapR=%d map=%d gauge=%v", hu, hr, mp, g))
-	}
-	if pending {
-		q.fail("request-pending-at-end", real)
-	}
-	fresh := &bcReq{kind: 'C', id: 999, wireNat: "unknown"}
-	if _, ok := bridges[0]; ok {
-		inst.start(fresh)
-		if !bcWait(fresh.isDone, 5*time.Second) || fresh.outcome != "denied" {
-			q.fail("fresh-client-not-denied-at-quiescence", fmt.Sprintf("outcome %q", fresh.outcome))
-		}
-	}
-	evs := "."
-	if len(q.events) > 0 {
-		evs = strings.Join(q.events, ",")
-	}
-	line = fmt.Sprintf("broker quiet 1 %s %s", inst.bridgeSpec(), evs)
-	for i := range q.fails {
-		q.fails[i].Case = line
-		q.fails[i].Real = real
-	}
-	return line, real, q.fails, len(q.events)
+	return q.finish(bridges)
 }
 
 // ---------------------------------------------------------------------------------------------
@@ -605,7 +717,9 @@ func bcForcePollTimeoutVsMatch(t *testing.T, inst *bcInst) {
 	inst.start(p)
 	bcWait(func() bool { return inst.registered(1) }, 5*time.Second)
 	time.Sleep(time.Until(p.started.Add(time.Duration(ProxyTimeout)*time.Second - 250*time.Millisecond)))
-	inst.ctx.snowflakeLock.Lock()
+	if !inst.lock() {
+		return
+	}
 	c := &bcReq{kind: 'C', id: 101, wireNat: "unknown", nat: "unknown"}
 	inst.start(c) // queues on the lock first
 	time.Sleep(700 * time.Millisecond) // the timer fires; the waiter queues behind the client
@@ -624,7 +738,9 @@ func bcForceAnswerVsClientTimeout(t *testing.T, inst *bcInst) {
 	inst.start(c)
 	bcWait(p.isDone, 5*time.Second)
 	time.Sleep(time.Until(c.started.Add(time.Duration(ClientTimeout)*time.Second - 250*time.Millisecond)))
-	inst.ctx.snowflakeLock.Lock()
+	if !inst.lock() {
+		return
+	}
 	a := &bcReq{kind: 'A', id: 201, sid: 1}
 	inst.start(a) // queues on the lock first
 	time.Sleep(700 * time.Millisecond) // client timer fires, its clean-up queues behind the answer's lookup
@@ -651,7 +767,9 @@ func bcForceTwoAnswers(t *testing.T, inst *bcInst) {
 	inst.start(c)
 	bcWait(p.isDone, 5*time.Second)
 	// hold the lock so that both lookups succeed before the client cleans up
-	inst.ctx.snowflakeLock.Lock()
+	if !inst.lock() {
+		return
+	}
 	a1 := &bcReq{kind: 'A', id: 201, sid: 1}
 	inst.start(a1)
 	time.Sleep(100 * time.Millisecond)
@@ -662,7 +780,53 @@ func bcForceTwoAnswers(t *testing.T, inst *bcInst) {
 	bcWait(func() bool { return a1.isDone() && a2.isDone() && c.isDone() }, 6*time.Second)
 }
 
+// A slow client: its matchSnowflake pops the proxy just before the proxy timeout, but its offer is sent
+// only after the waiter's timeout branch has run (the client goroutine was descheduled between the two
+// statements). The harness plays the client handler's statements itself, in that order.
+func bcForceSlowClient(t *testing.T, inst *bcInst) {
+	p := &bcReq{kind: 'P', id: 1, wireNat: "unrestricted", nat: "unrestricted"}
+	inst.start(p)
+	bcWait(func() bool { return inst.registered(1) }, 5*time.Second)
+	c := &bcReq{kind: 'C', id: 101, wireNat: "unknown", nat: "unknown", done: make(chan struct{}), started: time.Now()}
+	inst.mu.Lock()
+	inst.reqs = append(inst.reqs, c)
+	inst.byKey["C101"] = c
+	inst.mu.Unlock()
+	time.Sleep(time.Until(p.started.Add(time.Duration(ProxyTimeout)*time.Second - 300*time.Millisecond)))
+	popped := make(chan *Snowflake, 1)
+	go func() { popped <- inst.ipc.matchSnowflake("unknown") }()
+	var sf *Snowflake
+	select {
+	case sf = <-popped:
+	case <-time.After(5 * time.Second):
+	}
+	if sf == nil {
+		return // c stays pending
+	}
+	time.Sleep(900 * time.Millisecond) // the proxy timeout fires and its critical section runs
+	fp, _ := bridgefingerprint.FingerprintFromHexString(bcDefaultFP)
+	offer := &ClientOffer{natType: "unknown", sdp: []byte("offer-101"), fingerprint: fp.ToBytes()}
+	sent := make(chan struct{})
+	go func() { sf.offerChannel <- offer; close(sent) }()
+	select {
+	case <-sent:
+	case <-time.After(6 * time.Second):
+		return // nobody receives the offer: c stays pending
+	}
+	bcWait(p.isDone, 5*time.Second)
+	// no answer is posted: the client would time out and clean up
+	if inst.lock() {
+		inst.ctx.metrics.promMetrics.AvailableProxies.With(prometheus.Labels{"nat": sf.natType, "type": sf.proxyType}).Dec()
+		delete(inst.ctx.idToSnowflake, sf.id)
+		inst.ctx.snowflakeLock.Unlock()
+	}
+	c.outcome = "timeout"
+	c.finished = time.Now()
+	close(c.done)
+}
+
 var bcForcedTemplates = []bcForced{
+	{"slow-client-sends-after-timeout-branch", "pa:1:u:0,add:1,ca:101:k:0,cm:101:1,wt:1,wc:1,wl:1:101,wf:1,hr:1,ct:101,cf:101", bcForceSlowClient, "", ""},
 	{"poll-timeout-vs-client-match", "pa:1:u:0,add:1,wt:1,ca:101:k:0,cm:101:1,wc:1,wl:1:101,wf:1,hr:1,ct:101,cf:101", bcForcePollTimeoutVsMatch,
 		"p1=idle", "pa:1:u:0,add:1,wt:1,wc:1,hi:1,hr:1,ca:101:k:0,cd:101"},
 	{"answer-lookup-vs-client-timeout", "pa:1:u:0,add:1,ca:101:k:0,cm:101:1,wo:1:101,wf:1,hr:1,aa:201:1,ct:101,al:201,cf:101,as:201", bcForceAnswerVsClientTimeout,
@@ -689,17 +853,22 @@ func runBrokerCore(t *testing.T, prop string) {
 	r := vh.Start(prop)
 	defer r.Finish()
 	nQuiet := r.N(120, 1200)
+	nStag := r.N(40, 300)
+	parallel := 400
+	if vh.Serial() {
+		nQuiet, nStag, parallel = 6, 2, 1
+	}
 	type qres struct {
 		line, real string
 		fails      []vh.Finding
 		n          int
 	}
-	results := make([]qres, nQuiet)
+	results := make([]qres, nQuiet+nStag)
 	forced := make([]string, len(bcForcedTemplates))
 	forcedInst := make([]*bcInst, len(bcForcedTemplates))
 	var wg sync.WaitGroup
 	t0 := time.Now()
-	sem := make(chan struct{}, 400)
+	sem := make(chan struct{}, parallel)
 	for i := 0; i < nQuiet; i++ {
 		wg.Add(1)
 		go func(i int) {
@@ -708,6 +877,16 @@ func runBrokerCore(t *testing.T, prop string) {
 			defer func() { <-sem }()
 			line, real, fails, n := runQuiet(t, r.Seed*1000003+int64(i), t0)
 			results[i] = qres{line, real, fails, n}
+		}(i)
+	}
+	for i := 0; i < nStag; i++ {
+		wg.Add(1)
+		go func(i int) {
+			defer wg.Done()
+			sem <- struct{}{}
+			defer func() { <-sem }()
+			line, real, fails, n := runStaggered(t, r.Seed*7000003+int64(i))
+			results[nQuiet+i] = qres{line, real, fails, n}
 		}(i)
 	}
 	for i, f := range bcForcedTemplates {
@@ -723,9 +902,12 @@ func runBrokerCore(t *testing.T, prop string) {
 		}(i, f)
 	}
 	wg.Wait()
-	for _, q := range results {
+	for qi, q := range results {
 		model := r.Model(q.line)
 		class := "quiet"
+		if qi >= nQuiet {
+			class = "staggered"
+		}
 		if strings.Contains(q.real, "answer:") {
 			class += "/answered"
 		}
@@ -758,7 +940,9 @@ func runBrokerCore(t *testing.T, prop string) {
 		r.Compare("forced-"+f.name, line, "ok "+forced[i], model)
 		if prop == "C04" {
 			inst := forcedInst[i]
-			if inst.anyPending() {
+			if inst.lockDead {
+				r.OracleFail("broker-lock-held-forever:"+f.name, line, forced[i], "the broker's matching lock was not released for 8 s: every later request hangs")
+			} else if inst.anyPending() {
 				r.OracleFail("request-never-completes:"+f.name, line, forced[i],
 					"every client poll, proxy poll and proxy answer must get its response within the protocol waits plus slack")
 			} else if hu, hr, mp, g := inst.counts(); hu+hr+mp != 0 || int(g) != 0 {
